@@ -205,6 +205,50 @@ def crowd_between(ctx, behaviours, svcs):
     return out
 
 
+def wrap_between(ctx, behaviours, svcs):
+    """Like crowd_between, but the crowd is a burst of 65 535 (or 65 536 +/- 1) other clients: on a fresh daemon the second
+    instance's serial equals the first one's modulo 2^16 (a serial kept in 16 bits would repeat the tag)."""
+    out = []
+    cands = []
+    for b in behaviours:
+        seen, pos = set(), None
+        for k, e in enumerate(b):
+            if e["e"] == "C":
+                if e["id"] in seen:
+                    pos = k
+                    break
+                seen.add(e["id"])
+        if pos is None or pos < 2:
+            continue
+        # behaviours in which a reply carrying the tag of the earlier instance arrives after the re-announcement come first
+        ncb = sum(1 for e in b[:pos] if e["e"] == "C")
+        late = any(e["e"] == "X" and _TAGRE.match(e["tag"]) and int(_TAGRE.match(e["tag"]).group(2), 16) <= ncb for e in b[pos:])
+        cands.append((0 if late else 1, len(cands), b, pos))
+    for (_, _, b, pos) in sorted(cands, key=lambda c: c[:2]):
+        n = (65535, 65535, 65534, 65536)[len(out) % 4]
+        out.append(splice_burst(b, pos, n))
+    return out
+
+
+def splice_burst(events, pos, n):
+    """events with a burst event of n announcements inserted before events[pos]; tags of later instances shifted by n."""
+    ncb = sum(1 for e in events[:pos] if e["e"] == "C")
+    out = []
+    for k, e in enumerate(events):
+        if k == pos:
+            out.append({"e": "B", "n": n, "id0": 5000})
+        if e["e"] == "X":
+            m = _TAGRE.match(e["tag"])
+            if m and int(m.group(2), 16) > ncb:
+                e = dict(e, tag="%s_%x" % (m.group(1), int(m.group(2), 16) + n))
+        out.append(e)
+    return out
+
+
+def wrap_also(limit=8):
+    return [(lambda bs: wrap_between(None, bs, None)[:limit], {"behaviours_per_process": 1})]
+
+
 def crowd_also(limit=250):
     """`also=` entry: re-announcement behaviours replayed once more, each on a fresh daemon, with a crowd between the instances."""
     return [(lambda bs: crowd_between(None, bs, None)[:limit], {"behaviours_per_process": 1})]
